@@ -363,7 +363,8 @@ def generate(rng, opts):
             "alt_growth": [rng.choice(OUT_INIT), rng.choice(OUT_RESIZE)],
             "inputs": inputs, "schedules": scheds,
             "calls": [rng.choice(prog["defs"])[0] for _ in range(rng.randint(0, 3))] if prog["defs"] else [],
-            "rerun": rng.random() < 0.5, "misuse": rng.random() < 0.3, "mutate_source": None}
+            "rerun": rng.random() < 0.5, "misuse": rng.random() < 0.3, "mutate_source": None,
+            "sweep": rng.random() < opts.get("forth_sweep_share", 0.04)}
     if rng.random() < opts.get("forth_illformed_rate", 0.12):
         case["mutate_source"] = gen_source_mutation(rng, fm.render(prog))
     return case
@@ -604,6 +605,49 @@ def execute(node, case, rec, opts):
         node.drop(hs)
         rec.probe("schedules_compared")
 
+    # ---------------------------------------------------------------- A2: every segmentation of a short execution
+    if case.get("sweep"):
+        hs = drv.machine(srcb)
+        total = None
+        try:
+            node.fm_do(hs, node.FM_BEGIN)
+            total = 0
+            err = 0
+            while err == 0 and not (node.fm_flags(hs) & 2) and total <= opts.get("forth_sweep_max", 10):
+                err, done = node.fm_do(hs, node.FM_STEP, 1)
+                total += max(done, 1)
+        except NodeError:
+            total = None
+        node.drop(hs)
+        if total is not None and 2 <= total <= opts.get("forth_sweep_max", 10):
+            # all 2**(total-1) ways to cut `total` single steps into bursts, each also with a final 'resume'
+            for mask in range(1 << (total - 1)):
+                parts = []
+                run_len = 1
+                for bit in range(total - 1):
+                    if mask >> bit & 1:
+                        parts.append(run_len)
+                        run_len = 1
+                    else:
+                        run_len += 1
+                parts.append(run_len)
+                for tail_resume in (False, True):
+                    sched = [["step", k] for k in parts]
+                    if tail_resume:
+                        sched[-1] = ["resume"]
+                    hs = drv.machine(srcb)
+                    try:
+                        errs = drv.scheduled(hs, sched, budget_actions)
+                    except NodeError as e:
+                        raise Violation("robustness", "exception_from_step", {"error": [e.cls, e.msg[:300]]})
+                    vs = view(errs, node.fm_state(hs))
+                    if not same_view(v0, vs):
+                        raise Violation("schedule_independence", "stepped_state_differs",
+                                        {"source": src, "schedule": sched, "sweep": True, "diff(run,stepped)": diff_view(v0, vs)})
+                    node.drop(hs)
+            rec.probe("exhaustive_segmentation_sweeps")
+            rec.state(("sweep", total))
+
     # ---------------------------------------------------------------- B: configuration independence
     hb = drv.machine(srcb, out_init=case["alt_growth"][0], out_resize=case["alt_growth"][1])
     errb, _ = drv.canonical(hb, budget_actions)
@@ -739,6 +783,12 @@ def execute_illformed(node, case, rec, src):
         if e.cls == "nonstd":
             raise Violation("robustness", "nonstd_exception", {"source": src})
         rec.ev("begin_refused", e.cls)
+        return
+    import re
+    if re.search(r"\by\d+\s+dup\b", src):
+        # no model bounds this execution, and '<huge number> <output> dup' is a legal request for gigabytes: the
+        # compile/decompile half above is all that is checked for such a text
+        rec.probe("mutated_source_not_stepped_output_dup")
         return
     err, done = node.fm_do(h, node.FM_STEP, 3000)
     rec.ticks += done
@@ -1050,8 +1100,10 @@ RULE = ("one run = seeded grammar-based program (AST, <= forth_max_words words) 
         "decides termination first (20000-instruction budget, else discarded). distinct = hash of (opcode-class "
         "sequence of the program, schedule shape with step-burst classes, machine width, configuration class); "
         "non-trivial = at least 5 program words or at least one fault kind fired")
-REQUIRED_PROBES = {"quick": ["program_paused", "schedules_compared", "calls_compared", "compile_error_reported"],
+REQUIRED_PROBES = {"quick": ["program_paused", "schedules_compared", "calls_compared", "compile_error_reported",
+                             "exhaustive_segmentation_sweeps"],
                    "thorough": ["program_paused", "schedules_compared", "calls_compared", "compile_error_reported",
+                                "exhaustive_segmentation_sweeps",
                                 "mutated_source_compiled"]}
 
 
